@@ -87,6 +87,7 @@ def related_programs(rng, th, kinds=None, ctx=None):
     that continues the previous range, a near miss of that): schema.related_programs; with ctx also every history to
     depth 3 of MC_Tables over menus that contain each add operation together with its continuation(s)"""
     progs = schema.related_programs(rng, kinds, reps=3 if th else 1)
+    progs += schema.alternating_programs(rng, kinds, steps=24 if th else 12, maxpairs=60 if th else 20)     # A B A B ... histories
     if ctx is not None:
         ks = [k for k in RANGE_KINDS if kinds is None or k in kinds]
         if ks:
